@@ -49,3 +49,40 @@ Theorem C01_inst_reachable_wf :
 Proof. exact inst_reachable_wf. Qed.
 Print Assumptions C01_inst_reachable_wf.
 
+
+(* ---- the full field model of Fields.v as the leaves of the configuration (instance ConfigFields.v) ---- *)
+From Cinco Require Import Fields FieldsLemmas ConfigFields ConfigFieldsLemmas.
+
+(* an accepted value meets the field's declared constraints (Fields' `meets`), for EVERY input the state machine can
+   present: plain data, and proxies of the field whose items are validated values (anything else is Unmodelled) *)
+Theorem C01_fields_validate_sound :
+  forall (orc : oracle) (f : fleaf) (x v : pyval), cf_validate orc f x = Ok v -> meets orc (fl_fld f) v.
+Proof. exact cf_validate_sound. Qed.
+Print Assumptions C01_fields_validate_sound.
+
+(* on plain data (arguments, constructor keywords, documents) the guard is transparent: the leaf validator IS Fields.validate_with *)
+Theorem C01_fields_validate_plain_input :
+  forall (orc : oracle) (f : fleaf) (x : pyval), plain x = true -> cf_validate orc f x = validate_with orc (fl_fld f) x.
+Proof. exact cf_validate_plain_input. Qed.
+Print Assumptions C01_fields_validate_plain_input.
+
+(* every state reachable by any history over a schema whose leaves are field classes of Fields.v is well-formed w.r.t.
+   Fields' `meets`, at every depth, given valid declared defaults *)
+Theorem C01_fields_reachable_wf :
+  forall (orc : oracle) (vt : vtable) (ops : list (list pstep * cop)) (w : world) (dyn : bool) (vs : list N) (fs : list (str * fnode)),
+    (forall (f : fleaf) (n : N), cf_meets orc f (cf_default orc f n)) -> ok_fields fleaf fs ->
+    wf_cfg fleaf (cf_meets orc) fs
+      (run fleaf (cf_validate orc) (cf_to_python orc) (cf_default orc) fl_callable fl_flag (vrun vt) ops
+           (fst (build_cfg fleaf (cf_default orc) fl_callable w fs))
+           (snd (build_cfg fleaf (cf_default orc) fl_callable w fs)) dyn vs fs).
+Proof. exact cf_reachable_wf. Qed.
+Print Assumptions C01_fields_reachable_wf.
+
+(* the guard never fires on the load route either: to_python of plain document data yields plain data or a proxy of the
+   field with validated items, on which the leaf validator is Fields.validate_with (outside the F13 region, where a
+   validated item need not be a fixed point of its own field) *)
+Theorem C01_fields_load_route_transparent :
+  forall (orc : oracle) (f : fleaf) (xi x' : pyval), has_F13 (fl_fld f) = false -> plain xi = true ->
+    cf_to_python orc f xi = Ok x' -> cf_validate orc f x' = validate_with orc (fl_fld f) x'.
+Proof. exact cf_validate_after_to_python. Qed.
+Print Assumptions C01_fields_load_route_transparent.
